@@ -93,6 +93,12 @@ class Closure:
             return self
         return BoundClosure(self, obj)
 
+    def __deepcopy__(self, memo):
+        return self  # functions are atomic for copy.deepcopy
+
+    def __copy__(self):
+        return self
+
     def __call__(self, *args, **kwargs):
         return self._c.world.interp.invoke(self, args, kwargs)
 
